@@ -35,11 +35,35 @@ const TS_ALL: &[&str] = &[
 /// slow/aborted case can be attributed to "allocates the declared length up-front" rather than to a hang.
 pub struct CountingAlloc;
 pub static MAX_ALLOC: std::sync::atomic::AtomicUsize = std::sync::atomic::AtomicUsize::new(0);
+pub static RES_FD: std::sync::atomic::AtomicI32 = std::sync::atomic::AtomicI32::new(-1);
+pub static CUR_IDX: std::sync::atomic::AtomicUsize = std::sync::atomic::AtomicUsize::new(0);
+const HUGE: usize = 1 << 30;
+/// A single allocation request of 1 GiB or more for an input of a few kilobytes is the
+/// "allocate the declared length up-front" behaviour: report it at once (no waiting for 4 GiB to be
+/// zeroed, no dependence on machine load or memory limits) and end the worker; the parent restarts it.
+fn note(size: usize) {
+    use std::sync::atomic::Ordering::Relaxed;
+    MAX_ALLOC.fetch_max(size, Relaxed);
+    if size >= HUGE {
+        let fd = RES_FD.load(Relaxed);
+        if fd >= 0 {
+            let mut buf = [0u8; 64];
+            let mut n = 0;
+            let mut put = |b: &[u8], buf: &mut [u8; 64], n: &mut usize| { for &c in b { if *n < 64 { buf[*n] = c; *n += 1; } } };
+            let mut num = |mut v: usize, buf: &mut [u8; 64], n: &mut usize| { let mut d = [0u8; 20]; let mut k = 0; if v == 0 { d[0] = b'0'; k = 1; } while v > 0 { d[k] = b'0' + (v % 10) as u8; v /= 10; k += 1; } while k > 0 { k -= 1; if *n < 64 { buf[*n] = d[k]; *n += 1; } } };
+            put(b"R ", &mut buf, &mut n); num(CUR_IDX.load(Relaxed), &mut buf, &mut n); put(b" hugealloc maxalloc=", &mut buf, &mut n); num(size, &mut buf, &mut n); put(b"\n", &mut buf, &mut n);
+            use std::io::Write; use std::os::fd::FromRawFd;
+            let mut f = std::mem::ManuallyDrop::new(unsafe { std::fs::File::from_raw_fd(fd) });
+            let _ = f.write_all(&buf[..n]);
+        }
+        std::process::exit(4);
+    }
+}
 unsafe impl std::alloc::GlobalAlloc for CountingAlloc {
-    unsafe fn alloc(&self, l: std::alloc::Layout) -> *mut u8 { MAX_ALLOC.fetch_max(l.size(), std::sync::atomic::Ordering::Relaxed); std::alloc::System.alloc(l) }
+    unsafe fn alloc(&self, l: std::alloc::Layout) -> *mut u8 { note(l.size()); std::alloc::System.alloc(l) }
     unsafe fn dealloc(&self, p: *mut u8, l: std::alloc::Layout) { std::alloc::System.dealloc(p, l) }
-    unsafe fn alloc_zeroed(&self, l: std::alloc::Layout) -> *mut u8 { MAX_ALLOC.fetch_max(l.size(), std::sync::atomic::Ordering::Relaxed); std::alloc::System.alloc_zeroed(l) }
-    unsafe fn realloc(&self, p: *mut u8, l: std::alloc::Layout, n: usize) -> *mut u8 { MAX_ALLOC.fetch_max(n, std::sync::atomic::Ordering::Relaxed); std::alloc::System.realloc(p, l, n) }
+    unsafe fn alloc_zeroed(&self, l: std::alloc::Layout) -> *mut u8 { note(l.size()); std::alloc::System.alloc_zeroed(l) }
+    unsafe fn realloc(&self, p: *mut u8, l: std::alloc::Layout, n: usize) -> *mut u8 { note(n); std::alloc::System.realloc(p, l, n) }
 }
 
 thread_local! { static LAST_PANIC: std::cell::RefCell<String> = std::cell::RefCell::new(String::new()); }
@@ -308,10 +332,26 @@ pub fn gen_cases(ctx: &Ctx) -> Vec<Raw> {
                 ("", s.into_bytes())
             }
             "pdu" | "pdu_strict" => ("", pdu_seeds(r)),
+
             _ => ("", string_input(r, entry)),
         };
         let is_str = entry.starts_with("str_");
-        let input = if pristine || is_str { seed } else { mutate(r, &seed) };
+        let mut input = if pristine || is_str { seed } else { mutate(r, &seed) };
+        if (entry == "pdu" || entry == "pdu_strict") && !pristine {
+            // structure-aware: cut the tail inside the last item and/or make the outer PDU length consistent again
+            match r.below(4) {
+                0 if input.len() > 6 => { let cut = r.below(10.min(input.len() as u64 - 6)) as usize; let l = input.len() - cut; input.truncate(l); }
+                1 if input.len() >= 6 => { // hand-made P-DATA with a short last item
+                    let k = r.below(8) as usize; let il = r.range(0, 6) as u32;
+                    let mut v = vec![4u8, 0, 0, 0, 0, 0];
+                    if r.coin() { v.extend_from_slice(&[0, 0, 0, 3, 1, 3, 0x55]); }
+                    let mut item = il.to_be_bytes().to_vec(); item.extend_from_slice(&[1, 2, 9, 9, 9, 9]); item.truncate(k);
+                    v.extend(item); input = v;
+                }
+                _ => {}
+            }
+            if r.chance(2, 3) && input.len() >= 6 { let l = (input.len() - 6) as u32; input[2..6].copy_from_slice(&l.to_be_bytes()); }
+        }
         out.push(Raw { entry, ts, input, valid_seed: pristine });
     }
     out
@@ -320,6 +360,7 @@ pub fn gen_cases(ctx: &Ctx) -> Vec<Raw> {
 // ------------------------------------------------------------------ worker (child process)
 pub fn worker(file: &str, from: usize) {
     let mut resf = std::fs::OpenOptions::new().create(true).append(true).open(format!("{file}.res")).unwrap();
+    { use std::os::fd::AsRawFd; RES_FD.store(resf.as_raw_fd(), std::sync::atomic::Ordering::Relaxed); }
     std::panic::set_hook(Box::new(|info| {
         let loc = info.location().map(|l| format!("{}:{}", l.file(), l.line())).unwrap_or_else(|| "?".into());
         *PANIC_LOC.lock().unwrap_or_else(|e| e.into_inner()) = loc;
@@ -333,6 +374,7 @@ pub fn worker(file: &str, from: usize) {
         let ts = if ts == "-" { String::new() } else { ts };
         let input: Vec<u8> = (0..hexs.len() / 2).map(|i| u8::from_str_radix(&hexs[2 * i..2 * i + 2], 16).unwrap()).collect();
         MAX_ALLOC.store(0, std::sync::atomic::Ordering::Relaxed);
+        CUR_IDX.store(idx, std::sync::atomic::Ordering::Relaxed);
         writeln!(resf, "S {idx}").unwrap(); resf.flush().unwrap();
         let (tx, rx) = mpsc::channel();
         std::thread::Builder::new().stack_size(64 << 20).spawn(move || {
@@ -400,6 +442,7 @@ pub fn cases(ctx: &Ctx) -> Vec<Case> {
         let oracle = match class.as_str() {
             "ok" | "err" => Oracle::Holds,
             "panic" => Oracle::Fails { class: format!("panic@{}", repo_rel(&detail)), detail: format!("entry={} ts={} input={}", c.entry, c.ts, hex(&c.input)) },
+            "hugealloc" => Oracle::Fails { class: "prealloc-declared-length".into(), detail: format!("entry={} ts={} input={} {}", c.entry, c.ts, hex(&c.input), detail) },
             "timeout" | "abort" if maxalloc_of(&detail) >= (256 << 20) => Oracle::Fails { class: "prealloc-declared-length".into(), detail: format!("entry={} ts={} input={} {}", c.entry, c.ts, hex(&c.input), detail) },
             other => Oracle::Fails { class: format!("{}@{}", if other.is_empty() { "notrun" } else { other }, c.entry), detail: format!("entry={} ts={} input={} {}", c.entry, c.ts, hex(&c.input), detail) },
         };
